@@ -28,10 +28,13 @@ type vSrv struct {
 	failed    bool
 	// monitor for C06
 	seenLamport map[string]bool
+	delivered   map[int]int // replica -> length of the log prefix its last completed sync delivered
+	applied     map[int]int // replica -> the same one sync earlier (see monitorCausal)
 }
 
 func vNewSrv() *vSrv {
-	return &vSrv{rows: map[int]time.VersionVector{}, clientSeq: map[int]uint32{}, seenLamport: map[string]bool{}}
+	return &vSrv{rows: map[int]time.VersionVector{}, clientSeq: map[int]uint32{}, seenLamport: map[string]bool{},
+		delivered: map[int]int{}, applied: map[int]int{}}
 }
 
 // vWire passes changes through the real wire converters, giving every
@@ -70,6 +73,7 @@ func (s *vSrv) syncBegin(idx int, d *Document) func() {
 			continue
 		}
 		s.monitor(c)
+		s.monitorCausal(idx, c)
 		s.log = append(s.log, c)
 		s.clientSeq[idx] = c.ClientSeq()
 	}
@@ -96,10 +100,35 @@ func (s *vSrv) syncBegin(idx int, d *Document) func() {
 	}
 	cp := change.NewCheckpoint(int64(len(s.log)), s.clientSeq[idx])
 	pack := change.NewPack(d.Key(), cp, pulled, minVV, nil)
+	// whatever is pushed by the next request was made after this request was
+	// sent, i.e. after the previous response had been applied
+	s.applied[idx] = s.delivered[idx]
 	return func() {
 		if err := d.ApplyChangePack(pack); err != nil {
 			s.failed = true
 			zzvsym.Assert(false, "sync-no-error")
+		}
+		s.delivered[idx] = initial
+	}
+}
+
+// monitorCausal checks the C06 clause "for every change d applied at the
+// author before c was made, vv(c) >= vv(d) pointwise": c, pushed by replica
+// idx, was made after the response of the sync before its previous one had
+// been applied (a change may be made while a request is in flight, so the
+// latest response is not counted).
+func (s *vSrv) monitorCausal(idx int, c *change.Change) {
+	id := c.ID()
+	if !id.HasClocks() {
+		return
+	}
+	for _, prev := range s.log[:s.applied[idx]] {
+		p := prev.ID()
+		if !p.HasClocks() {
+			continue
+		}
+		for actor, l := range p.VersionVector() {
+			zzvsym.Assert(id.VersionVector().VersionOf(actor) >= l, "c06-vector-dominates-applied-changes")
 		}
 	}
 }
@@ -147,6 +176,10 @@ func vReplica(name string, opts ...Option) *Document {
 	vActorNames = append(vActorNames, name)
 	zzvsym.DistinctActors(vActorNames...)
 	d.SetStatus(StatusAttached)
+	// client.Attach records the attach-time GC participation on the document;
+	// every replica here participates (it sends and merges version vectors),
+	// whether or not it collects garbage locally (WithDisableGC)
+	d.SetDisableGC(false)
 	return d
 }
 
